@@ -27,6 +27,27 @@ theorem operationFor_exact (f : Facts) (hf : FactsOK f) (d : J) (hn : PathsNodup
     Ops.operationFor f d method path = Spec.Ops.operationFor d method path :=
   Proofs.Ops.operationFor_exact f hf.methods d hn method path
 
+/-- case-insensitivity said outright: two spellings of a method that agree after ASCII upper-casing designate the same
+    operation (`GET`, `get`, `gEt`) -/
+theorem operationFor_case_insensitive (f : Facts) (hf : FactsOK f) (d : J) (hn : PathsNodup d)
+    (m₁ m₂ path : String) (h : Str.toUpperAscii m₁ = Str.toUpperAscii m₂) :
+    Ops.operationFor f d m₁ path = Ops.operationFor f d m₂ path := by
+  rw [operationFor_exact f hf d hn, operationFor_exact f hf d hn]
+  unfold Spec.Ops.operationFor Spec.Ops.theMethod
+  rw [h]
+
+/-- a method name that is none of the seven designates no operation, whatever the document holds under that key -/
+theorem operationFor_unknown_method (f : Facts) (hf : FactsOK f) (d : J) (hn : PathsNodup d)
+    (method path : String) (h : Spec.Ops.theMethod method = none) :
+    Ops.operationFor f d method path = none := by
+  rw [operationFor_exact f hf d hn]
+  unfold Spec.Ops.operationFor
+  rw [h]; rfl
+
+-- the hypotheses of the two theorems above are met (not vacuous)
+example : Str.toUpperAscii "gEt" = Str.toUpperAscii "GET" := by decide
+example : Spec.Ops.theMethod "TRACE" = none := by decide
+
 /-- the operations the analyzer knows are those of the document, under all seven methods -/
 theorem operations_perm (f : Facts) (hf : FactsOK f) (d : J) :
     (Ops.operations f d).Perm (Spec.Ops.allOps d) :=
